@@ -259,24 +259,32 @@ def listKeys (t : Tree) (pfx delim startAfter : Option Bytes) : List (Bytes × N
   | none => objs
   | some m => objs.dropWhile fun o => bytesLe o.1 m
 
-/-! ## `complete_multipart_upload`: the loop over the listed parts -/
+/-! ## `complete_multipart_upload`: the listed parts -/
 
-/-- outcome of the loop: the concatenation written to the tmp file, or the error that ended it; the part
-    files removed on the way stay removed -/
-def completeLoop (id : Nat) (total : Nat) :
-    List (Option Int) → Nat → Bytes → List ((Nat × Int) × Bytes) → List ((Nat × Int) × Bytes) × Except Err Bytes
-  | [], _, acc, parts => (parts, .ok acc)
-  | pn :: rest, cnt, acc, parts =>
+/-- the validation loop (nothing is changed yet): part numbers `1, 2, 3, …` [`InvalidRequest`], every listed part file
+    exists [`InvalidPart`]; the listed parts with their contents, in list order -/
+def completeParts (id : Nat) (parts : List ((Nat × Int) × Bytes)) : List (Option Int) → Nat → Except Err (List (Int × Bytes))
+  | [], _ => .ok []
+  | pn :: rest, cnt =>
     match pn with
-    | none => (parts, .error .InvalidRequest)
+    | none => .error .InvalidRequest
     | some n =>
       let cnt := cnt + 1
-      if n ≠ (cnt : Int) then (parts, .error .InvalidRequest)
+      if n ≠ (cnt : Int) then .error .InvalidRequest
       else match alLookup (id, n) parts with
-        | none => (parts, .error .InternalError)
+        | none => .error .InvalidPart
         | some c =>
-          if n ≠ (total : Int) ∧ c.length < minPartSize then (parts, .error .EntityTooSmall)
-          else completeLoop id total rest cnt (acc ++ c) (alErase (id, n) parts)
+          match completeParts id parts rest cnt with
+          | .error e => .error e
+          | .ok ps => .ok ((n, c) :: ps)
+
+/-- the size rule: `part_number != total_parts_cnt && size < 5 MiB` for some listed part -/
+def partTooSmall (total : Nat) (ps : List (Int × Bytes)) : Bool :=
+  ps.any fun p => decide (p.1 ≠ (total : Int)) && decide (p.2.length < minPartSize)
+
+/-- the part files of the listed parts removed (after the object is in place) -/
+def eraseParts (id : Nat) (ns : List Int) (parts : List ((Nat × Int) × Bytes)) : List ((Nat × Int) × Bytes) :=
+  ns.foldl (fun acc n => alErase (id, n) acc) parts
 
 /-- `load_metadata(bucket, key, None)`: `none` = the file does not parse (→ `InternalError`) -/
 def State.loadMeta (s : State) (b k : Bytes) : Option Meta :=
@@ -574,20 +582,25 @@ def step (H : Hashes) (dirLen : Nat) (s : State) : Op → State × Resp
       | some id =>
         if !s.verify who id then (s, .err .AccessDenied)
         else
-          -- the upload id is consumed before anything is validated
-          let s1 := { s with uploads := alErase id s.uploads }
-          let s2 := match (if sideTooLong b k true then none else alLookup (b, k, id) s1.upMetas) with
-            | none => s1
-            | some m => { s1 with metas := alInsert (b, k) (.good m) s1.metas, upMetas := alErase (b, k, id) s1.upMetas }
+          -- nothing is changed before the part list and the part files are validated and the content is in place
           match objPath b k with
-          | .error e => (s2, .err e)
+          | .error e => (s, .err e)
           | .ok (bd, p) =>
-            match completeLoop id pl.length pl 0 [] s2.parts with
-            | (ps, .error e) => ({ s2 with parts := ps }, .err e)
-            | (ps, .ok c) =>
-              let (s3, ok) := ({ s2 with parts := ps } : State).commitFile bd p c
-              if !ok then (s3, .err .InternalError)
-              else (s3, .completed (some (etagOf H c)))
+            match completeParts id s.parts pl 0 with
+            | .error e => (s, .err e)
+            | .ok ps =>
+              if partTooSmall pl.length ps then (s, .err .EntityTooSmall)
+              else
+                let c := (ps.map (·.2)).flatten
+                let (s1, ok) := s.commitFile bd p c
+                if !ok then (s1, .err .InternalError)
+                else
+                  -- then the upload's metadata becomes the object's, the part files and the upload record are removed
+                  let s2 := match (if sideTooLong b k true then none else alLookup (b, k, id) s1.upMetas) with
+                    | none => s1
+                    | some m => { s1 with metas := alInsert (b, k) (.good m) s1.metas, upMetas := alErase (b, k, id) s1.upMetas }
+                  ({ s2 with parts := eraseParts id (ps.map (·.1)) s2.parts, uploads := alErase id s2.uploads },
+                    .completed (some (etagOf H c)))
   | .abortMultipartUpload who b k u =>
     match u with
     | none => (s, .err .InvalidRequest)
